@@ -66,6 +66,7 @@ def explore_histories(args):
     vals = [z3.BitVec(f"v{k}", 8) for k in range(N)]
     for s in sels: ex.add_base(z3.ULT(s, len(OPS)))
     for k, p in enumerate(prefix): ex.add_base(sels[k] == p)
+    ex.add_base(z3.Distinct(*vals))      # the stack never compares elements: distinct values lose nothing and make witnesses informative
     fns = set()
     out = {"paths": 0, "lines": [], "pred": [], "bad": [], "steps": 0}
 
@@ -160,14 +161,14 @@ def shapes(maxc, maxp, maxs):
 
 def step_chunk(args):
     P, chunk = args
-    ex = Explorer()
-    rows = []; fns = set(); nq = 0
+    rows = []; fns = set(); nq = 0; ts = 0.0
     for (nc, npop, lens) in chunk:
         for op in OPS:
-            ex.pop_to(0)
+            ex = Explorer()
             cache = [z3.BitVec(f"c{i}", 8) for i in range(nc)]
             popped = [z3.BitVec(f"q{i}", 8) for i in range(npop)]
             arg = z3.BitVec("a", 8)
+            ex.add_base(z3.Distinct(*(cache + popped + [arg])))
 
             def body(W):
                 I = Interp(P, W, S)
@@ -203,7 +204,8 @@ def step_chunk(args):
                     pc, pp, pl = res["post"]
                     pred = f"{ev(m, res['ret'])}|{j(pc)}|{j(pp)}|{','.join(f'{l}:{r}' for l, r in pl)}"
                 rows.append({"line": line, "pred": pred, "bad": res["bad"]})
-    return {"rows": rows, "queries": ex.nqueries, "solver_s": ex.solver_time, "fns": fn_evidence(fns)}
+            nq += ex.nqueries; ts += ex.solver_time
+    return {"rows": rows, "queries": nq, "solver_s": ts, "fns": fn_evidence(fns)}
 
 
 # ---------------------------------------------------------------- native side
